@@ -150,11 +150,24 @@ class _patched_random:
 def tree_class(grammar, t) -> str:
     rules = rules_of(grammar)
     feats = []
+    if any("<start>" in alt for alts in rules.values() for alt in alts):
+        feats.append("start-symbol-on-right-hand-side")
     if any(n.children is not None and len(n.children) == 0 and n.value in rules for _, n in ref_paths(t)):
         feats.append("epsilon-node-without-child")
     if any(n.value == "" for _, n in ref_paths(t)):
         feats.append("epsilon-child")
     return "+".join(feats) or "plain"
+
+
+def raised_in(exc: BaseException) -> str:
+    """Name of the innermost function of /repo/src/isla on the traceback."""
+    import traceback
+
+    name = "?"
+    for fs in traceback.extract_tb(exc.__traceback__):
+        if "/isla/" in fs.filename.replace("\\", "/") and "/verif/" not in fs.filename:
+            name = fs.name
+    return name
 
 
 def prefix_failures(t, r) -> List[str]:
@@ -190,13 +203,17 @@ def _run(kind: str, grammar, t, cls_name: str, seed: int, warm: int, oracle: Opt
                 fz.fuzz_tree()
             return fz.expand_tree(t)
         mut = Mutator(grammar)
-        return mut.mutate(t)
+        if kind == "mutate":
+            return mut.mutate(t)
+        # single strategy: kind = "strategy:<name>"; Nothing -> the input itself
+        return getattr(mut, kind.split(":", 1)[1])(t).value_or(t)
 
 
 def check_case(kind: str, grammar, t, cls_name: str, seed: int, warm: int = 0,
                prefix: Optional[List[int]] = None) -> Tuple[List[dict], Optional[ChoiceOracle]]:
     oracle = ChoiceOracle(prefix, seed) if prefix is not None else None
-    api = f"{cls_name}.expand_tree" if kind == "expand" else "Mutator.mutate"
+    api = (f"{cls_name}.expand_tree" if kind == "expand" else
+           "Mutator.mutate" if kind == "mutate" else "Mutator." + kind.split(":", 1)[1])
     tcls = tree_class(grammar, t)
     fails: List[dict] = []
 
@@ -214,7 +231,15 @@ def check_case(kind: str, grammar, t, cls_name: str, seed: int, warm: int = 0,
     except Watchdog:
         raise
     except BaseException as exc:  # noqa
-        fail(f"raises-{type(exc).__name__}", f"{type(exc).__name__}: {str(exc)[:120]}")
+        # the raising function localises the defect; no tree class in the signature
+        fails.append(dict(
+            signature=f"{api}:raises-{type(exc).__name__}@{raised_in(exc)}",
+            what=f"grammar={grammar!r} tree={show(t)} seed={seed} warm={warm} "
+                 f"choices={prefix if prefix is not None else 'seeded'}: "
+                 f"{type(exc).__name__} in {raised_in(exc)}: {str(exc)[:120]}",
+            case=dict(kind=kind, grammar=grammar, tree=tree_to_json(t), cls=cls_name, seed=seed,
+                      warm=warm, prefix=prefix),
+            size=(len(ref_paths(t)), len(repr(grammar)))))
         return fails, oracle
     if r is None or not hasattr(r, "children"):
         fail("no-tree", f"result {r!r}")
@@ -292,7 +317,7 @@ def _worker(task) -> dict:
     warnings.filterwarnings("ignore")
     logging.disable(logging.CRITICAL)
     grammar = task["grammar"]
-    res = dict(n=0, fails=[], timeouts=0, oracle_runs=0, oracle_trees=0, oracle_exhausted=0,
+    res = dict(n=0, fails=[], timeouts=0, timeout_cases=[], oracle_runs=0, oracle_trees=0, oracle_exhausted=0,
                changed=0, max_decisions=0)
     for sj in task["structs"]:
         st = struct_unjson(sj)
@@ -306,6 +331,8 @@ def _worker(task) -> dict:
                             fails, _ = check_case(kind, grammar, t, cls_name, seed, warm)
                     except Watchdog:
                         res["timeouts"] += 1
+                        res["timeout_cases"].append(f"{kind} {cls_name} seed={seed} warm={warm} "
+                                                    f"tree={show(t)} grammar={grammar!r}"[:400])
                         continue
                     res["n"] += 1
                     res["fails"].extend(fails)
@@ -360,7 +387,9 @@ def run(rep, tier, seed):
     rep.assume("a fresh fuzzer / mutator object is used per case (optionally warmed up with "
                "fuzz_tree() calls) so that every case can be replayed")
     rep.rule("expand case = (grammar, open tree, fuzzer class, seed, warm-up) ; mutate case = "
-             "(grammar, closed tree, seed); all cases are non-trivial (the input tree is open resp. "
+             "(grammar, closed tree, seed) for Mutator.mutate and for each of the three strategies "
+             "replace_subtree_randomly / generalize_subtree / swap_subtrees on their own (Nothing = "
+             "input unchanged); all cases are non-trivial (the input tree is open resp. "
              "has at least one inner node)")
     rep.bound(f"open trees: ref_trees(allow_open=True) with <= {max_nodes} nodes rooted in the start "
               f"symbol and in every other nonterminal (both epsilon styles), at most {cap_open} per "
@@ -409,7 +438,10 @@ def run(rep, tier, seed):
                                           structs=[struct_json(s) for s in sub[i:i + 5]], plans=plans_o))
         closed = closed_structs(g, start, max(enum_nodes, 9), cap_closed)
         n_closed += len(closed)
-        plans = [("mutate", "Mutator", seeds, 0, False, 0)]
+        plans = [("mutate", "Mutator", seeds, 0, False, 0),
+                 ("strategy:replace_subtree_randomly", "Mutator", seeds, 0, False, 0),
+                 ("strategy:generalize_subtree", "Mutator", seeds, 0, False, 0),
+                 ("strategy:swap_subtrees", "Mutator", seeds[:2], 0, False, 0)]
         for i in range(0, len(closed), 10):
             tasks.append(dict(gname=name, grammar=g, family="mutate",
                               structs=[struct_json(s) for s in closed[i:i + 10]], plans=plans))
@@ -442,6 +474,8 @@ def run(rep, tier, seed):
             rep.case(key=(task["gname"], task["family"], repr(sj)), nontrivial=True,
                      sample=dict(grammar=task["gname"], family=task["family"],
                                  tree=show(from_struct(struct_unjson(sj)))) if shown % 499 == 1 else None)
+        for tc in res["timeout_cases"]:
+            rep.note_inconclusive("watchdog (30 s): " + tc)
         all_fails.extend(res["fails"])
         for sig, n in res["fail_counts"].items():
             fail_counts[sig] = fail_counts.get(sig, 0) + n
